@@ -94,6 +94,10 @@ Inductive op :=
 | OpServeMsgChase (q : question) (cd : bool) (out : list N)
 | OpLookup (q : question) (cd : bool) (out : option N)
 | OpGet (q : question) (cd : bool) (out : obs)
+  (* a resolver-internal Store.GetWithContext(ctx, q, cd) issued from the handler below the cache while it serves
+     an outer client request that missed — ctx is the context the cache handed down; tree_cd / tree_ecs = the outer
+     request carried CD=1 / an EDNS Client Subnet option (either one marks the whole request tree) *)
+| OpGetTree (tree_cd tree_ecs : bool) (q : question) (cd : bool) (out : obs)
 | OpFail (q : question) (cd : bool) (p : option scope) (out : option N)
 | OpFailWire (w : bytes) (qtype qclass : N) (cd : bool) (out : option N)
 | OpCutL (q : question) (cd : bool) (out : option N)
@@ -236,6 +240,8 @@ Definition step (pol : policy) (now : N) (s : cstore) (o : op) : cstore * bool :
       (s, on_eqb (option_map e_id (store_lookup KB bytes_eqb hid s q cd)) out)
   | OpGet q cd out =>
       (s, obs_eqb (obs_of (store_get KB bytes_eqb hid s_fq s_fz s q cd)) out)
+  | OpGetTree tcd tecs q cd out =>
+      (s, obs_eqb (obs_of (store_get_tree KB bytes_eqb hid s_fq s_fz s q cd (tcd || tecs))) out)
   | OpFail q cd p out =>
       (s, on_eqb (option_map f_id (failure_lookup KB bytes_eqb hid s_fq s_fz s q cd p)) out)
   | OpFailWire w qt qc cd out =>
@@ -455,6 +461,15 @@ Definition spec_step (pol : policy) (ss : spec_state) (o : op) : spec_state * bo
            | BCut id => cut_okb ss id q cd false
            | BFail => existsb (fun f => fail_okb ss (fi_id f) q cd None) (ss_fail ss)
            end)
+  | OpGetTree tcd tecs q cd out =>
+      (* the resolver-internal lookup answers only from the partition the SUB-QUERY asks in, whatever the outer
+         client sent; a cut never answers inside a CD / ECS tree *)
+      (ss, match out with
+           | BMiss => true
+           | BHit id => hit_okb ss id q cd None
+           | BCut id => cut_okb ss id q cd (tcd || tecs)
+           | BFail => existsb (fun f => fail_okb ss (fi_id f) q cd None) (ss_fail ss)
+           end)
   | OpFail q cd p out => (ss, match out with None => true | Some id => fail_okb ss id q cd p end)
   | OpFailWire w qt qc cd out =>
       (ss, match out with
@@ -493,6 +508,7 @@ Fixpoint purge_spec (purged : list question) (ops : list op) : bool :=
       | OpServeChase _ q _ (_ :: _) => negb (same q) && purge_spec purged r
       | OpLookup q _ (Some _) => negb (same q) && purge_spec purged r
       | OpGet q _ (BHit _) => negb (same q) && purge_spec purged r
+      | OpGetTree _ _ q _ (BHit _) => negb (same q) && purge_spec purged r
       | _ => purge_spec purged r
       end
   end.
